@@ -171,6 +171,33 @@ def in_conv(tier):
                 yield (q, signed, v, 16)
 
 
+def call_conv_ff(qs, qd, signed, v):
+    mpc = _mpc()
+    F = mpc.SecFld(qs, signed=signed); G = mpc.SecFld(qd, signed=signed)
+    r = _out(mpc, mpc.convert(F(v), G))
+    return int(r.value), F.field.is_signed
+
+
+def ck_conv_ff(args, res, exc):
+    qs, qd, signed, v = args
+    if exc: return f'unexpected {type(exc).__name__}: {exc}'
+    val, is_signed = res
+    rep = v - qs if (is_signed and v > qs // 2) else v
+    return val == rep % qd or f'field -> field: GF({qs})({v}) -> GF({qd}) gives {val}, canonical representative {rep} mod {qd} = {rep % qd}'
+
+
+def in_conv_ff(tier):
+    P61, P89, P40, P33, P13 = 2 ** 61 - 1, 2 ** 89 - 1, 1099511627689, 8589934583, 8191
+    for qs, qd in ((P61, 257), (P61, P33), (P40, P33), (P89, P61), (P33, P40), (257, P61), (P13, 7), (101, P13), (P61, P61)):
+        for signed in (False, True):
+            # the property speaks about values that fit the target: representative in [0, qd) resp. [-(qd//2), qd//2]
+            reps = (0, 1, 2, -1, -2, qd // 2, -(qd // 2), qd // 2 - 1, qd - 1, qd - 2, qd // 3, 12345, -12345)
+            for rep in reps:
+                lo, hi = (-(min(qs, qd) // 2), min(qs, qd) // 2) if signed else (0, min(qs, qd) - 1)
+                if lo <= rep <= hi:
+                    yield (qs, qd, signed, rep % qs)
+
+
 NATIVE = {n.name: n for n in [
     Native('fxp_div', 'mpyc.runtime.Runtime.div/_rec/_norm', call_div, ck_div, in_div, 'SecFxp(8,4): all divisors, every 7th dividend (thorough: all pairs, + (12,6)); results in range'),
     Native('fxp_reciprocal', 'mpyc.runtime.Runtime._rec/_norm', call_rec, ck_rec, in_rec, 'SecFxp(8,4), (12,6) (thorough + (16,8)): all representable y with 1/y in range'),
@@ -178,10 +205,12 @@ NATIVE = {n.name: n for n in [
     Native('fxp_pow', 'mpyc.runtime.Runtime.pow (fixed point)', call_pow, ck_pow, in_pow, 'SecFxp(12,4): n in {2,3,4}, every 5th x with x**n in range (thorough: all, + (16,6))'),
     Native('int_gcd_family', 'mpyc.runtime.Runtime.gcd/lcm/gcdext/inverse/_gcd/_divsteps', call_gcd, ck_gcd, in_gcd, 'all pairs of 4-bit (thorough 5-bit) integers'),
     Native('field_conversions', 'mpyc.runtime.Runtime.convert/_convert (secure fields)', call_conv, ck_conv, in_conv, 'GF(q) for q in {2,3,7,11,101,251}, signed and unsigned, all (sampled for q > 20) elements'),
+    Native('field_conversions_field_to_field', 'mpyc.runtime.Runtime.convert (field to field via secure integers)', call_conv_ff, ck_conv_ff, in_conv_ff,
+           'prime fields of 13, 33, 40, 61, 89 bits and small ones in both directions, signed and unsigned, 12 boundary values each'),
     Native('field_conversions_gf2_signed', 'mpyc.runtime.Runtime.convert/_convert[signed-GF(2)]', call_conv, ck_conv, in_conv_gf2_signed, 'signed GF(2), both elements'),
 ]}
 for _n in NATIVE.values(): _n.module = 'contracts.runtime_native'
-BY_PROP = {'C02': ['fxp_div', 'fxp_reciprocal', 'fxp_sincos', 'fxp_pow'], 'C01': ['int_gcd_family'], 'C06': ['field_conversions', 'field_conversions_gf2_signed']}
+BY_PROP = {'C02': ['fxp_div', 'fxp_reciprocal', 'fxp_sincos', 'fxp_pow'], 'C01': ['int_gcd_family'], 'C06': ['field_conversions', 'field_conversions_field_to_field', 'field_conversions_gf2_signed']}
 
 
 def tasks(tier, prop):
